@@ -112,7 +112,8 @@ type c14SubScen struct {
 	Entries   []c14SubEntry `json:"entries"`
 	Whole     *c14Err       `json:"whole,omitempty"` // error returned by the hook (overrides everything)
 	SetID     uint32        `json:"set_id,omitempty"`
-	SubID     uint32        `json:"sub_id,omitempty"` // Subscription Identifier of the SUBSCRIBE (v5)
+	StripID   bool          `json:"strip_id,omitempty"` // the hook calls SetID(0): the subscription gets no identifier although the SUBSCRIBE carried one
+	SubID     uint32        `json:"sub_id,omitempty"`   // Subscription Identifier of the SUBSCRIBE (v5)
 	PubRetain bool          `json:"pub_retain,omitempty"`
 	// PreRetained: retained QoS 2 messages exist on the original and the rewritten topic of every entry before the
 	// SUBSCRIBE; what is replayed must follow the hook's decision (filter, QoS, identifier; nothing when rejected)
@@ -553,6 +554,9 @@ func genC14Sub(setID bool) func(t *rapid.T) c14DecScen {
 		}
 		if setID {
 			sub.SetID = rapid.SampledFrom([]uint32{7, 9}).Draw(t, "set_id")
+			if rapid.IntRange(0, 2).Draw(t, "strip") == 0 {
+				sub.SetID, sub.StripID, sub.SubID = 0, true, 5
+			}
 		}
 		return s
 	}
@@ -600,6 +604,9 @@ func runC14Sub(s c14DecScen, c *ev.Case) *ev.Violation {
 		}
 		if sc.SetID != 0 {
 			req.SetID(sc.SetID)
+		}
+		if sc.StripID {
+			req.SetID(0)
 		}
 		if sc.Whole != nil {
 			return sc.Whole.err()
@@ -673,9 +680,12 @@ func runC14Sub(s c14DecScen, c *ev.Case) *ev.Violation {
 		if sc.SetID != 0 {
 			wantID = sc.SetID
 		}
+		if sc.StripID {
+			wantID = 0
+		}
 	}
 	var installed []subSpec
-	modified := sc.Whole != nil || sc.SetID != 0
+	modified := sc.Whole != nil || sc.SetID != 0 || sc.StripID
 	for i, e := range sc.Entries {
 		code := suback.ReasonCodes[i]
 		feat := []any{"act", e.Act, "version", s.V, "whole", sc.Whole != nil, "replace", e.Replace}
@@ -729,7 +739,7 @@ func runC14Sub(s c14DecScen, c *ev.Case) *ev.Violation {
 		c.NonTrivial()
 	}
 	sort.Slice(installed, func(i, j int) bool { return installed[i].full() < installed[j].full() })
-	feat := []any{"version", s.V, "whole", sc.Whole != nil, "set_id", sc.SetID != 0}
+	feat := []any{"version", s.V, "whole", sc.Whole != nil, "set_id", sc.SetID != 0, "strip_id", sc.StripID}
 	got := c14SubsOf(b, "sub")
 	noID := func(in []subSpec) (out []string) {
 		for _, x := range in {
